@@ -13,9 +13,13 @@ interleavings share one state; the shape of Put comes from the regenerated facts
   g-snap   g-read   g-truncdata   g-truncindex      (the steps of one GC call)
   setapp <s>                                        (SetAppendedSeq)
   putfailidx <hex|->     (Put under a one-shot INDEX AcquirePage fault)
+  f-new <pageSize>   f-acq <id>   f-get <id>   f-trunc <bound>   f-close   f-reopen
+                                                     (pkg/queue/page/factory.go driven directly)
+  p-new   p-write <hex|->   p-writegen <start> <len>   p-replica <idx> <hex|->   p-ackidx
+  p-reset <idx>   p-expire   p-close   p-reopen      (replica/partition.go over the queue)
 -/
 import LinVerif.Util.Proto
-import LinVerif.Model.Queue
+import LinVerif.Model.QueueFactory
 import LinVerif.Generated.C05
 
 namespace LinVerif.Driver.C05
@@ -68,8 +72,92 @@ def showGet (st : St) (s : Int) : String :=
 structure DSt where
   σ : CSt
   shape : Option Shape
+  fct : Option Fct := none       -- the factory of the `f-*` ops (none before `f-new`)
+  pclosed : Bool := false        -- partition.closed of the `p-*` ops
 
 def DSt.init : DSt := { σ := CSt.init, shape := shapeOf Generated.C05.putCalls }
+
+def showFct (f : Fct) : String := s!"pages={showList f.pages} size={f.size}"
+
+/-- the `f-*` ops: pkg/queue/page/factory.go driven directly -/
+def fctStep (d : DSt) (ws : List String) : DSt × String :=
+  match ws, d.fct with
+  | ["f-new", ps], _ =>
+    match ps.toNat? with
+    | some ps => let f := Fct.new [] ps; ({ d with fct := some f }, "ok " ++ showFct f)
+    | none => (d, "bad-op")
+  | ["f-acq", i], some f =>
+    match i.toNat? with
+    | some i =>
+      match f.acquire i with
+      | (_, .closedErr) => (d, "err closed")
+      | (f', .loaded) => ({ d with fct := some f' }, "ok loaded " ++ showFct f')
+      | (f', .created) => ({ d with fct := some f' }, "ok created " ++ showFct f')
+    | none => (d, "bad-op")
+  | ["f-get", i], some f =>
+    match i.toNat? with
+    | some i => (d, s!"ok {f.getPage i}")
+    | none => (d, "bad-op")
+  | ["f-trunc", b], some f =>
+    match b.toNat? with
+    | some b => let f' := f.truncate b; ({ d with fct := some f' }, "ok " ++ showFct f')
+    | none => (d, "bad-op")
+  | ["f-close"], some f => ({ d with fct := some f.close }, "ok")
+  | ["f-reopen"], some f => let f' := Fct.new f.pages f.pageSize; ({ d with fct := some f' }, "ok " ++ showFct f')
+  | _, _ => (d, "bad-op")
+
+/-- the `p-*` ops: replica/partition.go over the queue model (sequential; no Put / GC in flight) -/
+def partStep (d : DSt) (ws : List String) : DSt × String :=
+  if d.σ.busy ≠ 0 then (d, "not-enabled") else
+  let withSt (st : St) : DSt := { d with σ := { d.σ with mem := st.mem, q := st.q } }
+  let write (m : Msg) : DSt × String :=
+    match writeLog d.pclosed d.σ.st m with
+    | (_, .closed) => (d, "err closed")
+    | (st, .noop) => (d, s!"ok noop app={st.q.appended}")
+    | (st, .put (.ok s)) => (withSt st, s!"ok seq={s} {showCur st.q}")
+    | (_, .put .tooLarge) => (d, "err too-large")
+    | (_, .put .acquireFailed) => (d, "bad-op")
+  match ws with
+  | ["p-new"] => ({ d with σ := CSt.init, pclosed := false }, "ok " ++ showQ CSt.init.q)
+  | ["p-write", w] =>
+    match parseMsg w with
+    | some m => write m
+    | none => (d, "bad-op")
+  | ["p-writegen", a, b] =>
+    match a.toNat?, b.toNat? with
+    | some start, some len => write (Msg.gen start len)
+    | _, _ => (d, "bad-op")
+  | ["p-replica", i, w] =>
+    match i.toInt?, parseMsg w with
+    | some i, some m =>
+      match replicaLog d.pclosed d.σ.st i m with
+      | (_, .closed) => (d, "err closed")
+      | (_, .skip n) => (d, s!"ok skip next={n}")
+      | (st, .ok n) => (withSt st, s!"ok idx={n} {showCur st.q}")
+      | (_, .failed) => (d, "err failed ret=-1")
+    | _, _ => (d, "bad-op")
+  | ["p-ackidx"] => (d, s!"ok {replicaAckIndex d.σ.st}")
+  | ["p-reset", i] =>
+    match i.toInt? with
+    | some i =>
+      match d.σ.gc with
+      | .idle => let st := resetReplicaIndex d.σ.st i; (withSt st, "ok " ++ showQ st.q)
+      | _ => (d, "not-enabled")
+    | none => (d, "bad-op")
+  | ["p-expire"] =>
+    -- IsExpire: log.Sync() (no consumer group: returns at once), Queue().GC(); the family is
+    -- inside the write window, so the answer is false
+    match d.σ.gc with
+    | .idle =>
+      let st := gc d.σ.st
+      (withSt st, s!"ok expired=false data={showList st.mem.dataLive} index={showList st.mem.indexLive}")
+    | _ => (d, "not-enabled")
+  | ["p-close"] => ({ d with pclosed := true }, "ok")
+  | ["p-reopen"] =>
+    match d.σ.gc with
+    | .idle => let st := reopen d.σ.st; ({ withSt st with pclosed := false }, "ok " ++ showQ st.q)
+    | _ => (d, "not-enabled")
+  | _ => (d, "bad-op")
 
 def withSt (σ : CSt) (st : St) : CSt := { σ with mem := st.mem, q := st.q }
 
@@ -217,6 +305,10 @@ def step (d : DSt) (ws : List String) : DSt × String :=
       | .atomic, none => (d, "skip")
       | .threeStep, none => (d, "not-enabled")
     | none => (d, "bad-op")
+  | w :: _ =>
+    if w.startsWith "f-" then fctStep d ws
+    else if w.startsWith "p-" then partStep d ws
+    else (d, "bad-op")
   | _ => (d, "bad-op")
 
 def main (_args : List String) : IO Unit := Proto.runLoop DSt.init step
